@@ -119,13 +119,14 @@ Proof.
 Qed.
 
 (* inputs: never overwritten (the part of spec_inputs_safe that holds) *)
-Lemma meets_inputs_not_overwritten :
-  ob_allow o = false -> write opt = true ->
-  forall p, In p (ob_inputs o) -> lookup (ob_after o) p <> None -> lookup (ob_after o) p = lookup (ob_before o) p.
+Lemma meets_inputs_not_overwritten : spec_inputs_not_overwritten o.
 Proof.
-  unfold o, obs_of. cbn [ob_allow ob_inputs ob_after ob_before]. intros HA HW p Hp Hne.
-  assert (HE : effective_allow opt = false) by (unfold effective_allow; rewrite HA, HW; reflexivity).
-  destruct (input_safe_or_deleted _ _ _ _ _ _ _ Hstep HE Hp) as [H|[H _]]; [exact H | contradiction].
+  unfold spec_inputs_not_overwritten, o, obs_of. cbn [ob_allow ob_inputs ob_after ob_before]. intros HA p Hp Hne.
+  destruct (write opt) eqn:HW.
+  - assert (HE : effective_allow opt = false) by (unfold effective_allow; rewrite HA, HW; reflexivity).
+    destruct (input_safe_or_deleted _ _ _ _ _ _ _ Hstep HE Hp) as [H|[H _]]; [exact H | contradiction].
+  - destruct step_disk_cases as [[_ [HW' _]]|[_ [dels [_ [_ HD]]]]]; [congruence|].
+    rewrite HD in Hne |- *. destruct (mem p dels); [contradiction Hne; reflexivity | reflexivity].
 Qed.
 
 End OneStep.
@@ -135,14 +136,15 @@ Lemma step_meets_spec_all fixed opt st st' oc r own :
   (forall p, In p (keys (latest st)) -> In p own) ->
   let o := obs_of opt st st' oc r own in
   spec_only_reported o /\ spec_all_reported_written o /\ spec_deletes_own o /\
-  spec_failed_no_write o /\ spec_single_valued o.
+  spec_failed_no_write o /\ spec_single_valued o /\ spec_inputs_not_overwritten o.
 Proof.
-  intros H D O. split; [|split; [|split; [|split]]].
+  intros H D O. split; [|split; [|split; [|split; [|split]]]].
   - exact (meets_only_reported fixed opt st st' oc r own H D O).
   - exact (meets_all_reported_written fixed opt st st' oc r own H D).
   - exact (meets_deletes_own fixed opt st st' oc r own H D O).
   - exact (meets_failed_no_write fixed opt st st' oc r own H D).
   - exact (meets_single_valued fixed opt st st' oc r own H D).
+  - exact (meets_inputs_not_overwritten fixed opt st st' oc r own H D).
 Qed.
 
 (* the repaired step: a build that has errors when the write phase starts
